@@ -33,7 +33,7 @@ TYPES = [("Code15", (1, 5), [("xdis-pre36", None), ("M-lines-unsigned", None)], 
 
 
 def bounds(tier):
-    return {"entries": 3, "offset_gaps": OGAPS, "line_gaps": LGAPS, "negative_line_gaps": NEG, "first_lines": [1, 1000]}
+    return {"entries": 3 if tier == "quick" else 4, "four_entry_alphabet": "offset gaps 2/255/256/600 x line gaps 0/1/127/128/300/-1/-128 (thorough)", "offset_gaps": OGAPS, "line_gaps": LGAPS, "negative_line_gaps": NEG, "first_lines": [1, 1000]}
 
 
 def hosts(tier):
@@ -44,10 +44,12 @@ def prepare(tier):
     return {"tier": tier}
 
 
-def mappings(signed, fl):
+def mappings(signed, fl, tier="quick"):
     gaps = [(o, l) for o in OGAPS for l in (LGAPS + (NEG if signed else []))]
-    for n in (1, 2):
-        for combo in itertools.product(gaps, repeat=n):
+    # thorough: one more entry over a reduced gap alphabet (the boundary values only)
+    gaps3 = [(o, l) for o in (2, 255, 256, 600) for l in ([0, 1, 127, 128, 300] + ([-1, -128] if signed else []))]
+    for n in ((1, 2) if tier == "quick" else (1, 2, 3)):
+        for combo in itertools.product(gaps if n < 3 else gaps3, repeat=n):
             off, line = 0, fl
             m = [(0, fl)]
             ok = True
@@ -60,13 +62,17 @@ def mappings(signed, fl):
                 m.append((off, line))
             if ok:
                 yield m
+                # the same mapping without its entry at offset 0: the table then starts with a gap (in the 3.10 format a
+                # leading range without a line, in the lnotab formats a first entry with a byte increment)
+                if n < 3 and len(m) > 1:
+                    yield m[1:]
 
 
 def cases(plan, tier, shard, nshards, host):
     n = 0
     for ti, (tname, ver, decs, signed) in enumerate(TYPES):
         for fl in (1, 1000):
-            ms = list(mappings(signed, fl))
+            ms = list(mappings(signed, fl, tier))
             for i in range(0, len(ms), 300):
                 n += 1
                 if n % nshards == shard:
@@ -115,6 +121,8 @@ def delta_class(mapping, signed):
         do, dl = o2 - o1, l2 - l1
         cl.add("off>=256" if do >= 256 else "off<256")
         cl.add("line<0" if dl < 0 else ("line>=128" if dl >= 128 else "line<128"))
+    if mapping and mapping[0][0] > 0:
+        return "leading-gap"
     order = ["line<0", "line>=128", "off>=256", "line<128", "off<256"]
     for c in order:
         if c in cl:
@@ -162,7 +170,9 @@ def run_case(case, ctx):
             answers[dname] = common.oracle_batch(dver, reqs)
     for i, (mapping, codelen, cls, p, table) in enumerate(frozen):
         want = line_function(mapping, codelen, step)
+        want0 = want
         for dname, dver in decs:
+            want = want0
             try:
                 if dname == "xdis":
                     got = list(X.findlinestarts(p))
@@ -182,6 +192,10 @@ def run_case(case, ctx):
                 ctx.violation("%s:decode-raises:%s:%s:%s" % (tname, dname, type(e).__name__, cls), "%r on table %s (mapping %s)" % (e, hx(table), mapping))
                 continue
             gotf = line_function(got, codelen, step)
+            if mapping[0][0] > 0:
+                # nothing is said about the offsets before the first entry of the mapping
+                gotf = dict((o, l) for o, l in gotf.items() if o >= mapping[0][0])
+                want = dict((o, l) for o, l in want.items() if o >= mapping[0][0])
             if gotf != want:
                 off = next(o for o in sorted(want) if gotf.get(o) != want[o])
                 ctx.violation("%s:%s:%s" % (tname, "cpython" if dname == "cpython" else dname, cls),
